@@ -95,6 +95,8 @@ func Load(dir string) (*Prog, error) {
 		}
 	}
 	p.NFuncs = len(p.ModuleFuncs())
+	p.buildAliases()
+	p.buildParamAliases()
 	p.BuildBindings()
 	return p, nil
 }
@@ -211,6 +213,7 @@ func (p *Prog) funcByName(rel, spec string) *ssa.Function {
 	}
 	if i := strings.IndexByte(spec, '.'); i >= 0 {
 		tname, mname := spec[:i], spec[i+1:]
+		tname = ActualTypeName(rel, tname)
 		obj := sp.Pkg.Scope().Lookup(tname)
 		tn, ok := obj.(*types.TypeName)
 		if !ok {
@@ -247,7 +250,7 @@ func (p *Prog) NamedType(rel, name string) *types.Named {
 	if pk == nil || pk.Types == nil {
 		return nil
 	}
-	tn, ok := pk.Types.Scope().Lookup(name).(*types.TypeName)
+	tn, ok := pk.Types.Scope().Lookup(ActualTypeName(rel, name)).(*types.TypeName)
 	if !ok {
 		return nil
 	}
